@@ -126,6 +126,13 @@ def z1_framing(prog, ctx, wc):
     for meth, const_name, payload in (("add_gene_info", "GENE_INFO", "GeneInfo"),
                                       ("add_read_info", "READ_ASSIGNMENT", "ReadAssignment"),
                                       ("__del__", "SHORT_TERMINATION_INT", None)):
+        if meth == "__del__":
+            # the stream terminator: written by whichever method finalises the stream (close() since the resume fix, else __del__)
+            cand = [m_ for m_ in ("close", "__del__") if prog.try_func(rel, "TmpFileAssignmentPrinter." + m_) is not None
+                    and "SHORT_TERMINATION_INT" in src(prog.try_func(rel, "TmpFileAssignmentPrinter." + m_))]
+            if not cand:
+                raise AnalysisError("TmpFileAssignmentPrinter: no method writes the stream terminator")
+            meth = cand[0]
         f = prog.func(rel, "TmpFileAssignmentPrinter." + meth)
         calls = [c for c in walk_no_nested(f) if isinstance(c, ast.Call)]
         tagw = [c for c in calls if call_name(c) and call_name(c).split(".")[-1] in ("write_short_int", "write_int")]
